@@ -21,6 +21,7 @@ import (
 	"os"
 	"path/filepath"
 	"sync"
+	"sync/atomic"
 	"testing"
 	"time"
 
@@ -29,6 +30,7 @@ import (
 	"go.minekube.com/gate/pkg/edition/java/config"
 	"go.minekube.com/gate/pkg/edition/java/proxy"
 	"go.minekube.com/gate/pkg/util/configutil"
+	"go.minekube.com/gate/pkg/verifexport"
 
 	"verif/harness/mcwire"
 	"verif/harness/rig"
@@ -229,6 +231,18 @@ func TestReplay(t *testing.T) {
 		t.Fatal(err)
 	}
 	defer r.Close()
+
+	// Every login pauses between the session server's answer and the use the proxy makes of it,
+	// so that other logins' session queries overlap with it: an answer belongs to the login that
+	// asked for it, whatever else is in flight.  (A delay only: never changes what is allowed.)
+	var joinPauses atomic.Int64
+	verifexport.InstallHook(func(gate bool, name string, kv []any) {
+		if gate && name == "login.join.returned" {
+			joinPauses.Add(1)
+			time.Sleep(2 * time.Millisecond)
+		}
+	})
+	defer verifexport.InstallHook(nil)
 
 	tw, err := tracefmt.Create("trace.ndjson")
 	if err != nil {
@@ -465,5 +479,5 @@ func TestReplay(t *testing.T) {
 		t.Fatal(err)
 	}
 	tracefmt.WriteJSON("stats.json", map[string]any{"runs": runs, "admissions": admissions,
-		"online_admissions": onlineAdmissions, "repeat_logins": repeats, "boundary_secrets": boundarySecrets, "slow": slow, "samples": samples, "events": tw.N, "session_queries": len(ss.Log())})
+		"online_admissions": onlineAdmissions, "repeat_logins": repeats, "boundary_secrets": boundarySecrets, "slow": slow, "samples": samples, "events": tw.N, "session_queries": len(ss.Log()), "join_pauses": joinPauses.Load()})
 }
